@@ -161,6 +161,55 @@ CLAIMS.update({
     },
 })
 
+CLAIMS.update({
+    'C03': {
+        'text': 'Decides, for every edge type and both backends at once: '
+                '(HANDLERS) every instantiated Edge subclass has a make and '
+                'a ninja handler and dispatch is by exact type over all '
+                'edges; (DEPS-COVER) def-use analysis of every handler shows '
+                'that each consumed-node attribute of its edge classes '
+                '(sources, objects, libs, pch, headers, package deps, files '
+                'named in commands, extra_deps) reaches the dependency '
+                'arguments of the emitted statement, and output directories '
+                'are order-only; (OUTPUT-COVER) the emitted target derives '
+                'from all of rule.output; (PASS-THROUGH) multitarget_rule / '
+                'command_build forward those arguments, the stamp carries '
+                'them; (RULE-OWNER) one producing rule per file enforced by '
+                'a dominating duplicate test; (EDGE-INIT) every Edge '
+                'subclass __init__ reaches super().__init__ on all '
+                'non-raising paths (CFG must-pass) and Edge registers itself; '
+                '(DEFAULTS) all/test/tests/install/alias members come from '
+                'the declared sets in both backends. These are necessary '
+                'conditions of graph equality for all scripts; rebuild '
+                'behaviour over histories is not decided.',
+        'note': _TB + 'Table REQUIRED (consumed attributes per edge class) '
+                'was confirmed by reading the constructors; a new Edge '
+                'subclass outside the table is reported. Roots analysis '
+                'over-approximates (any mention counts).',
+        'technique': 'decorator-registry model + def-use root analysis of '
+                     'handlers + CFG dominance/must-pass',
+    },
+    'C06': {
+        'text': 'Decides sibling agreement of the three emitters per edge '
+                'class: registration sets (make = ninja; compdb minus three '
+                'reasoned exemptions), equal dependency-root sets of the '
+                'make and ninja handlers, both go through the shared '
+                '_get_flags with their own backend, the tool call receives '
+                'the same keyword set in make/ninja/compdb, compdb uses the '
+                'same flag components in the same order and the same global-'
+                'options lookup, transform_input is applied in all three, '
+                'command steps use global_env(rule.env, rule.cmds) in all '
+                'three, depfile argument under the gcc flavor in all three. '
+                'It decides agreement of the code shape, not equality of the '
+                'evaluated command lines.',
+        'note': _TB + 'Not decided: equality of evaluated command lines, '
+                'working directories and environments.',
+        'technique': 'cross-checking sibling implementations registered in '
+                     'the same handler slot (registry model + def-use roots '
+                     '+ expression agreement)',
+    },
+})
+
 _PENDING = 'check not built yet in this session (design in DESIGN.md)'
 
 NOT_APPLICABLE = {
